@@ -3,7 +3,8 @@
 //! and a contract would need a ghost model of the binary format).  Random compositions (seeded) over a package whose
 //! imports and exports all have the SAME type - so that a mis-wired argument still validates - are built through the real
 //! graph API: several instantiations of one package, diamonds, aliases shared by several consumers, explicit imports,
-//! implicit imports, nodes exported under several names.  The output of the REAL encoder (dependencies embedded and
+//! implicit imports, nodes exported under several names, explicit imports of an interface type next to implicit imports of
+//! the same interface, type definitions exported under a second name.  The output of the REAL encoder (dependencies embedded and
 //! imported) is parsed with wasmparser's section readers, its index spaces are reconstructed, and every instance,
 //! argument, alias and export is turned into a term (`new k(a=import x, b=(new k(..)).f)`) that must equal the term of
 //! the corresponding graph item:
@@ -70,8 +71,19 @@ fn pkg_c() -> Vec<u8> {
 )"#).unwrap()
 }
 
+fn pkg_i() -> Vec<u8> {
+    // imports an INTERFACE (an instance import whose name is an interface id): an explicit import of the same interface
+    // type under another name must stay a separate import
+    wat::parse_str(r#"(component
+  (import "a:b/c" (instance $i (export "f" (func))))
+  (import "a" (func))
+  (alias export $i "f" (func $f))
+  (export "g" (func $f))
+)"#).unwrap()
+}
+
 #[derive(Clone, Debug)]
-enum Origin { Import(String), Alias(u32, String), Instantiate(u32, Vec<(String, K, u32)>), Embedded(usize), Export(K, u32), Other }
+enum Origin { Import(String), Alias(u32, String), Instantiate(u32, Vec<(String, K, u32)>), Embedded(usize), Export(K, u32), Def(String), Other }
 
 #[derive(Default)]
 struct Spaces { funcs: Vec<Origin>, instances: Vec<Origin>, components: Vec<Origin>, types: Vec<Origin>, exports: Vec<(String, K, u32)>, embedded: Vec<std::ops::Range<usize>>, names: BTreeMap<(u8, u32), String> }
@@ -97,7 +109,10 @@ fn read(bytes: &[u8]) -> Result<Spaces, String> {
                     ComponentInstance::FromExports(_) => s.instances.push(Origin::Other),
                 }
             },
-            Payload::ComponentTypeSection(r) => for _ in 0..r.count() { s.types.push(Origin::Other); },
+            Payload::ComponentTypeSection(r) => for t in r { match t.map_err(|e| e.to_string())? {
+                wasmparser::ComponentType::Defined(wasmparser::ComponentDefinedType::Primitive(p)) => s.types.push(Origin::Def(format!("{p:?}").to_lowercase())),
+                _ => s.types.push(Origin::Other),
+            } },
             Payload::ComponentAliasSection(r) => for a in r {
                 match a.map_err(|e| e.to_string())? {
                     ComponentAlias::InstanceExport { kind, instance_index, name } => { let o = Origin::Alias(instance_index, name.to_string()); match kind { K::Func => s.funcs.push(o), K::Instance => s.instances.push(o), K::Component => s.components.push(o), K::Type => s.types.push(o), _ => {} } }
@@ -148,7 +163,7 @@ impl<'a> Enc<'a> {
         match self.s.funcs.get(f as usize) { Some(Origin::Import(n)) => format!("import {n}"), Some(Origin::Alias(j, n)) => format!("({}).{n}", self.inst(*j)), Some(Origin::Export(_, j)) => self.func(*j), _ => "<?func>".into() }
     }
     fn ty(&self, t: u32) -> String {
-        match self.s.types.get(t as usize) { Some(Origin::Import(n)) => format!("import {n}"), Some(Origin::Alias(j, n)) => format!("({}).{n}", self.inst(*j)), Some(Origin::Export(_, j)) => self.ty(*j), _ => "<?type>".into() }
+        match self.s.types.get(t as usize) { Some(Origin::Import(n)) => format!("import {n}"), Some(Origin::Alias(j, n)) => format!("({}).{n}", self.inst(*j)), Some(Origin::Export(_, j)) => self.ty(*j), Some(Origin::Def(p)) => format!("<definition of {p}>"), _ => "<?type>".into() }
     }
     fn item(&self, k: K, x: u32) -> String { match k { K::Func => self.func(x), K::Instance => self.inst(x), K::Component => self.comp(x), K::Type => self.ty(x), _ => "<?>".into() } }
 }
@@ -166,7 +181,10 @@ fn graph_term(g: &CompositionGraph, n: NodeId, pkg_names: &BTreeMap<String, &'st
             a.sort();
             format!("new {}({})", pkg_names.get(&pname).copied().unwrap_or("?"), a.join(", "))
         }
-        NodeKind::Definition => "<definition>".into(),
+        NodeKind::Definition => match g[n].item_kind() {
+            ItemKind::Type(wac_types::Type::Value(wac_types::ValueType::Defined(id))) => match &g.types()[id] { wac_types::DefinedType::Alias(wac_types::ValueType::Primitive(p)) => format!("<definition of {}>", format!("{p:?}").to_lowercase()), _ => "<definition>".into() },
+            _ => "<definition>".into(),
+        },
     }
 }
 
@@ -174,7 +192,7 @@ fn main() {
     let n: usize = std::env::args().nth(1).and_then(|s| s.parse().ok()).unwrap_or(300);
     let seed: u64 = std::env::args().nth(2).and_then(|s| s.parse().ok()).unwrap_or(0);
     let mut r = Rng(seed.wrapping_mul(48271).wrapping_add(11));
-    let pkgs: Vec<(&'static str, Vec<u8>)> = vec![("t:k", pkg_k()), ("t:l", pkg_l()), ("t:p", pkg_p()), ("t:c", pkg_c())];
+    let pkgs: Vec<(&'static str, Vec<u8>)> = vec![("t:k", pkg_k()), ("t:l", pkg_l()), ("t:p", pkg_p()), ("t:c", pkg_c()), ("t:i", pkg_i())];
     let pkg_names: BTreeMap<String, &'static str> = pkgs.iter().map(|(n, _)| (n.to_string(), *n)).collect();
     let (mut comps, mut instantiations, mut nontrivial) = (0u64, 0u64, std::collections::BTreeSet::new());
     let mut wired = 0u64;
@@ -192,14 +210,22 @@ fn main() {
         // export (so the composition is a DAG with sharing, diamonds and several instantiations of one package), or implicit
         let ninst = 2 + r.below(4);
         let mut aliases: Vec<NodeId> = vec![];
+        let mut iface_imports: Vec<NodeId> = vec![];
         for i in 0..ninst {
-            let k = r.below(4);
+            let k = r.below(5);
             let inst = g.instantiate(pids[k]);
             if r.below(2) == 0 { g.set_node_name(inst, format!("inst{i}")); named += 1; }
             // the consumer's TYPE argument `r`: an alias of the type export `r` of one of the earlier provider instances
             if k == 3 {
                 let providers: Vec<NodeId> = insts.iter().filter(|(_, kj)| *kj == 2).map(|(n, _)| *n).collect();
                 if !providers.is_empty() && r.below(4) != 0 { let pr = providers[r.below(providers.len())]; let al = g.alias_instance_export(pr, "r").unwrap(); g.set_instantiation_argument(inst, "r", al).unwrap(); }
+            }
+            // the interface argument `a:b/c`: an explicit import of the interface type under ANOTHER name, or implicit
+            if k == 4 && r.below(2) == 0 {
+                let src = match iface_imports.last() { Some(n) if r.below(2) == 0 => *n, _ => {
+                    let kind = g.types()[g[pids[4]].ty()].imports["a:b/c"];
+                    let n = g.import(format!("foo{}", iface_imports.len()), kind).unwrap(); iface_imports.push(n); n } };
+                g.set_instantiation_argument(inst, "a:b/c", src).unwrap();
             }
             let args: &[&str] = match k { 0 => &["a", "b"], _ => &["a"] };
             for a in args {
@@ -209,7 +235,7 @@ fn main() {
                     _ if !insts.is_empty() => {
                         // reuse an existing alias (sharing) or make a new one
                         let src = if !aliases.is_empty() && r.below(3) == 0 { aliases[r.below(aliases.len())] } else {
-                            let (j, kj) = insts[r.below(insts.len())]; let names: &[&str] = match kj { 0 => &["f", "g"], 2 => &["f"], _ => &["h"] };
+                            let (j, kj) = insts[r.below(insts.len())]; let names: &[&str] = match kj { 0 => &["f", "g"], 2 => &["f"], 4 => &["g"], _ => &["h"] };
                             let al = g.alias_instance_export(j, names[r.below(names.len())]).unwrap(); if r.below(3) == 0 { g.set_node_name(al, format!("alias{}", aliases.len())); named += 1; } aliases.push(al); al };
                         g.set_instantiation_argument(inst, a, src).unwrap();
                     }
@@ -226,10 +252,26 @@ fn main() {
         }
         let mut exported = 0;
         let mut funcs: Vec<NodeId> = imports.clone(); funcs.extend(aliases.iter().cloned());
-        for (j, kj) in insts.clone() { if r.below(2) == 0 { let names: &[&str] = match kj { 0 => &["f", "g"], 2 => &["f"], _ => &["h"] }; funcs.push(g.alias_instance_export(j, names[r.below(names.len())]).unwrap()); } }
+        for (j, kj) in insts.clone() { if r.below(2) == 0 { let names: &[&str] = match kj { 0 => &["f", "g"], 2 => &["f"], 4 => &["g"], _ => &["h"] }; funcs.push(g.alias_instance_export(j, names[r.below(names.len())]).unwrap()); } }
         // the designated exports, recorded when the API accepted them (one node may be designated under several names)
         let mut designated: Vec<(String, NodeId)> = vec![];
         for _ in 0..r.below(5) { if !funcs.is_empty() { let f = funcs[r.below(funcs.len())]; let name = format!("out{exported}"); if g.export(f, &name).is_ok() { exported += 1; designated.push((name, f)); } } }
+        // explicit interface imports are designated as exports too (whether or not they are also arguments)
+        for (x, n) in iface_imports.iter().enumerate() { if r.below(2) == 0 { let name = format!("foo-out{x}"); if g.export(*n, &name).is_ok() { designated.push((name, *n)); } } }
+        // sometimes an explicit import of the interface with NO instantiation using it, next to an implicit import of it
+        if c % 5 == 0 && iface_imports.is_empty() && insts.iter().any(|(_, k)| *k == 4) {
+            let kind = g.types()[g[pids[4]].ty()].imports["a:b/c"];
+            let n = g.import("lonely", kind).unwrap(); g.export(n, "lonely-out").unwrap(); designated.push(("lonely-out".into(), n));
+        }
+        // type definitions, each possibly exported under a second name (both names are exports of the composition)
+        for (tname, prim) in [("tya", wac_types::PrimitiveType::U32), ("tyb", wac_types::PrimitiveType::String)] {
+            if r.below(3) == 0 {
+                let id = g.types_mut().add_defined_type(wac_types::DefinedType::Alias(wac_types::ValueType::Primitive(prim)));
+                let d = g.define_type(tname, wac_types::Type::Value(wac_types::ValueType::Defined(id))).unwrap();
+                designated.push((tname.to_string(), d));
+                if r.below(2) == 0 { let second = format!("{tname}-again"); if g.export(d, &second).is_ok() { designated.push((second, d)); } }
+            }
+        }
         for define in [true, false] {
             let bytes = match g.encode(EncodeOptions { define_components: define, validate: true, processor: None }) { Ok(b) => b, Err(_) => continue };   // cycles / conflicts: not this property
             comps += 1;
